@@ -97,7 +97,18 @@ func (d DID) PubKey() (crypto.PubKey, error) {
 	}
 
 	codeSize := varint.UvarintSize(uint64(d.code))
-	return unmarshaler([]byte(d.bytes)[codeSize:])
+	pub, err := unmarshaler([]byte(d.bytes)[codeSize:])
+	if err != nil {
+		return nil, err
+	}
+
+	// One principal, one DID: only the canonical identifier of a key is accepted (for example, a
+	// secp256k1 key in its uncompressed form would otherwise be a second identifier of the same key).
+	if canonical, err := FromPubKey(pub); err != nil || canonical != d {
+		return nil, fmt.Errorf("did:key doesn't hold the canonical encoding of its public key")
+	}
+
+	return pub, nil
 }
 
 // String formats the decentralized identity document (DID) as a string.
